@@ -100,6 +100,7 @@ fn main() {
             "C09" => vharness::checks::c09::run(tier),
             "C12" => vharness::checks::c12::run(tier),
             "C13" => vharness::checks::c13::run(tier),
+            "C14" => vharness::checks::c14::run(tier),
             other => {
                 eprintln!("unknown check {other}");
                 2
